@@ -3,7 +3,7 @@ CONSTANTS
   AKeys = {"a","b"}
   Vals = {"i:1","i:2","s:x","b:T","f:1"}
   Stores = {1,2}
-  Ops = {"SetAttrs","SetBulkAttrs","Read","Reopen","CallerMutates","Blocks","BlockData","Diff"}
+  Ops = {"SetAttrs","SetBulkAttrs","BulkQuery","Read","Reopen","CallerMutates","Blocks","BlockData","Diff"}
   MaxUpd = 2
   MaxBulk = 2
   ProbeBlocks = {0,1,2}
